@@ -1,8 +1,2201 @@
-//! C18 — monitor not built yet.
+//! C18 — a store never has two authorities; a live authority's lock is never taken; a store whose
+//! previous authority crashed becomes usable again.
+//!
+//! (A) in-process, driven: 1–6 contender threads run the real start-up recovery loop
+//!     (`ripd::verif_export::acquire_authority_lock_with_recovery`) on one store from every leftover
+//!     state. A monitor under its own mutex keeps the set of *observed* holders (added after the
+//!     loop returned `Ok`, removed before the guard is dropped — observed holding intervals are
+//!     subsets of the real ones, so an observed overlap is a real one) and, after every `auth.*`
+//!     hook event, checks that `lock.json` still carries the single holder's record. Schedules:
+//!     seeded noise at all `auth.*` points plus rendezvous scripts for each read-then-rename pair.
+//! (B) multi-process: 2–12 real `rip serve` processes (plus `rip tasks list` clients, which run
+//!     the client-side recovery loop and spawn authorities themselves) are started at once on one
+//!     store in each leftover state, with random `RIP_VERIF_DELAY` delays at `auth.*`; the monitor
+//!     counts which processes serve at once, checks `lock.json`/`meta.json` against the server,
+//!     kills the winner with SIGKILL and repeats the round on the same store.
+
+use crate::fixture::Store;
+use crate::prng::{fnv_str, Rng};
 use crate::report::{Cfg, Report};
+use crate::sched::sched;
+use serde_json::{json, Value};
+use std::cell::Cell;
+use std::collections::{BTreeMap, BTreeSet, HashMap};
+use std::io::{Read, Write};
+use std::net::{SocketAddr, TcpListener, TcpStream};
+use std::os::unix::process::CommandExt;
+use std::path::{Path, PathBuf};
+use std::process::{Child, Command, Stdio};
+use std::sync::atomic::{AtomicBool, Ordering};
+use std::sync::{Arc, Condvar, Mutex, MutexGuard};
+use std::time::{Duration, Instant};
+
+// ---------------------------------------------------------------------------------------------
+// shared small helpers (also used by c19.rs)
+
+pub(crate) fn rip_bin() -> PathBuf {
+    PathBuf::from(std::env::var("RV_RIP_BIN").unwrap_or_else(|_| "/verif/target/repo/release/rip".to_string()))
+}
+
+#[derive(Debug, Clone)]
+pub(crate) struct HttpResp {
+    pub status: u16,
+    pub head: String,
+    pub body: Vec<u8>,
+    /// everything that came over the wire (head + undecoded body)
+    pub raw: Vec<u8>,
+}
+
+fn dechunk(raw: &[u8]) -> Vec<u8> {
+    let mut out = Vec::new();
+    let mut i = 0;
+    while i < raw.len() {
+        let Some(eol) = raw[i..].windows(2).position(|w| w == b"\r\n") else {
+            break;
+        };
+        let size_str = String::from_utf8_lossy(&raw[i..i + eol]).to_string();
+        let Ok(size) = usize::from_str_radix(size_str.split(';').next().unwrap_or("0").trim(), 16) else {
+            break;
+        };
+        i += eol + 2;
+        if size == 0 {
+            break;
+        }
+        let end = (i + size).min(raw.len());
+        out.extend_from_slice(&raw[i..end]);
+        i = end + 2;
+    }
+    out
+}
+
+/// One HTTP/1.1 exchange over a fresh connection. `until` (checked on the bytes read so far) ends
+/// an endless (SSE) response early. None = could not connect / no parsable answer.
+pub(crate) fn http_exchange(
+    addr: &str,
+    method: &str,
+    path: &str,
+    body: Option<&[u8]>,
+    timeout: Duration,
+    until: Option<&dyn Fn(&[u8]) -> bool>,
+) -> Option<HttpResp> {
+    let sock: SocketAddr = addr.parse().ok()?;
+    let mut s = TcpStream::connect_timeout(&sock, Duration::from_millis(400)).ok()?;
+    let _ = s.set_nodelay(true);
+    let _ = s.set_write_timeout(Some(Duration::from_secs(2)));
+    let mut req = format!("{method} {path} HTTP/1.1\r\nhost: {addr}\r\nconnection: close\r\naccept: */*\r\n");
+    if let Some(b) = body {
+        req.push_str(&format!("content-type: application/json\r\ncontent-length: {}\r\n", b.len()));
+    }
+    req.push_str("\r\n");
+    s.write_all(req.as_bytes()).ok()?;
+    if let Some(b) = body {
+        s.write_all(b).ok()?;
+    }
+    let _ = s.flush();
+    let deadline = Instant::now() + timeout;
+    let mut raw: Vec<u8> = Vec::new();
+    let mut tmp = [0u8; 16384];
+    loop {
+        let now = Instant::now();
+        if now >= deadline {
+            break;
+        }
+        let _ = s.set_read_timeout(Some((deadline - now).min(Duration::from_millis(50)).max(Duration::from_millis(1))));
+        match s.read(&mut tmp) {
+            Ok(0) => break,
+            Ok(n) => {
+                raw.extend_from_slice(&tmp[..n]);
+                if let Some(f) = until {
+                    if f(&raw) {
+                        break;
+                    }
+                }
+            }
+            Err(e) if matches!(e.kind(), std::io::ErrorKind::WouldBlock | std::io::ErrorKind::TimedOut) => continue,
+            Err(_) => break,
+        }
+    }
+    let pos = raw.windows(4).position(|w| w == b"\r\n\r\n")?;
+    let head = String::from_utf8_lossy(&raw[..pos]).to_string();
+    let status: u16 = head.split(' ').nth(1)?.trim().parse().ok()?;
+    let rest = &raw[pos + 4..];
+    let body = if head.to_ascii_lowercase().contains("transfer-encoding: chunked") {
+        dechunk(rest)
+    } else {
+        rest.to_vec()
+    };
+    Some(HttpResp { status, head, body, raw })
+}
+
+pub(crate) fn http_json(addr: &str, method: &str, path: &str, body: Option<&Value>, timeout: Duration) -> Option<(u16, Value, HttpResp)> {
+    let bytes = body.map(|b| serde_json::to_vec(b).unwrap_or_default());
+    let r = http_exchange(addr, method, path, bytes.as_deref(), timeout, None)?;
+    let v = serde_json::from_slice(&r.body).unwrap_or(Value::Null);
+    Some((r.status, v, r))
+}
+
+/// "http://127.0.0.1:1234" -> "127.0.0.1:1234"
+pub(crate) fn host_port(endpoint: &str) -> String {
+    endpoint
+        .trim()
+        .trim_start_matches("http://")
+        .split('/')
+        .next()
+        .unwrap_or("")
+        .to_string()
+}
+
+pub(crate) fn openapi_reachable(endpoint: &str) -> bool {
+    match http_exchange(&host_port(endpoint), "GET", "/openapi.json", None, Duration::from_millis(1500), None) {
+        Some(r) => r.status == 200,
+        None => false,
+    }
+}
+
+pub(crate) fn kill_pid(pid: u32, sig: i32) {
+    if pid > 1 {
+        unsafe {
+            libc::kill(pid as i32, sig);
+        }
+    }
+}
+
+pub(crate) fn kill_group(pgid: u32, sig: i32) {
+    if pgid > 1 {
+        unsafe {
+            libc::kill(-(pgid as i32), sig);
+        }
+    }
+}
+
+/// A child process whose stderr/stdout are collected by reader threads.
+pub(crate) struct Proc {
+    pub child: Child,
+    pub pid: u32,
+    pub out: Arc<Mutex<Vec<u8>>>,
+    pub err: Arc<Mutex<Vec<u8>>>,
+    pub exit: Option<i32>,
+    readers: Vec<std::thread::JoinHandle<()>>,
+}
+
+impl Proc {
+    pub fn spawn(mut cmd: Command) -> std::io::Result<Proc> {
+        cmd.stdin(Stdio::null()).stdout(Stdio::piped()).stderr(Stdio::piped());
+        let mut child = cmd.spawn()?;
+        let pid = child.id();
+        let out = Arc::new(Mutex::new(Vec::new()));
+        let err = Arc::new(Mutex::new(Vec::new()));
+        let mut readers = Vec::new();
+        if let Some(mut so) = child.stdout.take() {
+            let out = out.clone();
+            readers.push(std::thread::spawn(move || {
+                let mut buf = [0u8; 4096];
+                while let Ok(n) = so.read(&mut buf) {
+                    if n == 0 {
+                        break;
+                    }
+                    out.lock().unwrap().extend_from_slice(&buf[..n]);
+                }
+            }));
+        }
+        if let Some(mut se) = child.stderr.take() {
+            let err = err.clone();
+            readers.push(std::thread::spawn(move || {
+                let mut buf = [0u8; 4096];
+                while let Ok(n) = se.read(&mut buf) {
+                    if n == 0 {
+                        break;
+                    }
+                    err.lock().unwrap().extend_from_slice(&buf[..n]);
+                }
+            }));
+        }
+        Ok(Proc { child, pid, out, err, exit: None, readers })
+    }
+
+    pub fn stderr_text(&self) -> String {
+        String::from_utf8_lossy(&self.err.lock().unwrap()).to_string()
+    }
+
+    pub fn stdout_text(&self) -> String {
+        String::from_utf8_lossy(&self.out.lock().unwrap()).to_string()
+    }
+
+    /// endpoint from the "ripd listening on http://…" line, once printed
+    pub fn listening(&self) -> Option<String> {
+        let t = self.stderr_text();
+        // stderr is unbuffered: only a line that has been terminated is complete
+        let complete = match t.rfind('\n') {
+            Some(p) => &t[..p],
+            None => return None,
+        };
+        for line in complete.lines() {
+            if let Some(rest) = line.strip_prefix("ripd listening on ") {
+                return Some(rest.trim().to_string());
+            }
+        }
+        None
+    }
+
+    pub fn alive(&mut self) -> bool {
+        if self.exit.is_some() {
+            return false;
+        }
+        match self.child.try_wait() {
+            Ok(Some(st)) => {
+                self.exit = Some(st.code().unwrap_or(-1));
+                false
+            }
+            Ok(None) => true,
+            Err(_) => false,
+        }
+    }
+
+    pub fn wait_exit(&mut self, timeout: Duration) -> Option<i32> {
+        let start = Instant::now();
+        while start.elapsed() < timeout {
+            if !self.alive() {
+                return self.exit;
+            }
+            std::thread::sleep(Duration::from_millis(5));
+        }
+        None
+    }
+
+    /// SIGKILL (if still running), reap, join the readers.
+    pub fn finish(&mut self) {
+        if self.alive() {
+            let _ = self.child.kill();
+        }
+        let _ = self.child.wait();
+        // readers end when the pipes close; a grandchild holding the pipe open must not hang us
+        let readers = std::mem::take(&mut self.readers);
+        let t0 = Instant::now();
+        for r in readers {
+            while !r.is_finished() && t0.elapsed() < Duration::from_millis(300) {
+                std::thread::sleep(Duration::from_millis(2));
+            }
+            if r.is_finished() {
+                let _ = r.join();
+            }
+        }
+    }
+}
+
+// ---------------------------------------------------------------------------------------------
+// leftover states
+
+#[derive(Clone, Copy, Debug, PartialEq, Eq, Hash)]
+enum Left {
+    Nothing,
+    DeadLock,
+    DeadLockMeta,
+    DeadLockMetaDrift,
+    DeadMetaOnly,
+    EmptyLock,
+    HalfLock,
+    ShapelessLock,
+    HalfLockSplitUtf8,
+    EmptyLockDeadMeta,
+    LivePidLock,
+    LivePidLockMeta,
+    LiveEndpoint,
+    LiveEndpointForeignPid,
+}
+
+const ALL_LEFT: &[Left] = &[
+    Left::Nothing,
+    Left::DeadLock,
+    Left::DeadLockMeta,
+    Left::DeadLockMetaDrift,
+    Left::DeadMetaOnly,
+    Left::EmptyLock,
+    Left::HalfLock,
+    Left::ShapelessLock,
+    Left::HalfLockSplitUtf8,
+    Left::EmptyLockDeadMeta,
+    Left::LivePidLock,
+    Left::LivePidLockMeta,
+    Left::LiveEndpoint,
+    Left::LiveEndpointForeignPid,
+];
+
+impl Left {
+    fn name(&self) -> &'static str {
+        match self {
+            Left::Nothing => "nothing",
+            Left::DeadLock => "dead_lock_only",
+            Left::DeadLockMeta => "dead_lock_and_meta",
+            Left::DeadLockMetaDrift => "dead_lock_and_meta_started_at_drift",
+            Left::DeadMetaOnly => "dead_meta_only",
+            Left::EmptyLock => "empty_lock",
+            Left::HalfLock => "half_written_lock",
+            Left::ShapelessLock => "lock_not_a_record",
+            Left::HalfLockSplitUtf8 => "half_written_lock_split_utf8",
+            Left::EmptyLockDeadMeta => "empty_lock_with_dead_meta",
+            Left::LivePidLock => "live_pid_lock_only",
+            Left::LivePidLockMeta => "live_pid_lock_and_meta",
+            Left::LiveEndpoint => "live_pid_answering_endpoint",
+            Left::LiveEndpointForeignPid => "answering_endpoint_pid_not_local",
+        }
+    }
+    fn live(&self) -> bool {
+        matches!(
+            self,
+            Left::LivePidLock | Left::LivePidLockMeta | Left::LiveEndpoint | Left::LiveEndpointForeignPid
+        )
+    }
+    /// the corrupt-lock path (1 s grace) is needed before anybody can acquire
+    fn corrupt(&self) -> bool {
+        matches!(
+            self,
+            Left::EmptyLock | Left::HalfLock | Left::ShapelessLock | Left::HalfLockSplitUtf8 | Left::EmptyLockDeadMeta
+        )
+    }
+    fn dead(&self) -> bool {
+        matches!(self, Left::DeadLock | Left::DeadLockMeta | Left::DeadLockMetaDrift | Left::DeadMetaOnly)
+    }
+}
+
+/// Things that have to stay alive while the planted state is in use.
+struct Planted {
+    dead_pid: Option<u32>,
+    sleeper: Option<Child>,
+    responder: Option<Responder>,
+    lock_bytes: Option<Vec<u8>>,
+    meta_bytes: Option<Vec<u8>>,
+}
+
+impl Drop for Planted {
+    fn drop(&mut self) {
+        if let Some(mut c) = self.sleeper.take() {
+            let _ = c.kill();
+            let _ = c.wait();
+        }
+    }
+}
+
+/// Minimal HTTP server that answers 200 to everything (a "reachable authority endpoint").
+struct Responder {
+    addr: SocketAddr,
+    stop: Arc<AtomicBool>,
+    thread: Option<std::thread::JoinHandle<()>>,
+}
+
+impl Responder {
+    fn start() -> Responder {
+        let l = TcpListener::bind("127.0.0.1:0").expect("bind responder");
+        let addr = l.local_addr().expect("addr");
+        l.set_nonblocking(true).expect("nonblocking");
+        let stop = Arc::new(AtomicBool::new(false));
+        let stop2 = stop.clone();
+        let thread = std::thread::spawn(move || {
+            while !stop2.load(Ordering::Relaxed) {
+                match l.accept() {
+                    Ok((mut s, _)) => {
+                        std::thread::spawn(move || {
+                            let _ = s.set_nonblocking(false);
+                            let _ = s.set_read_timeout(Some(Duration::from_millis(500)));
+                            let mut buf = [0u8; 2048];
+                            let mut got = Vec::new();
+                            while !got.windows(4).any(|w| w == b"\r\n\r\n") {
+                                match s.read(&mut buf) {
+                                    Ok(0) | Err(_) => break,
+                                    Ok(n) => got.extend_from_slice(&buf[..n]),
+                                }
+                            }
+                            let _ = s.write_all(
+                                b"HTTP/1.1 200 OK\r\ncontent-type: application/json\r\ncontent-length: 2\r\nconnection: close\r\n\r\n{}",
+                            );
+                            let _ = s.flush();
+                        });
+                    }
+                    Err(ref e) if e.kind() == std::io::ErrorKind::WouldBlock => std::thread::sleep(Duration::from_millis(1)),
+                    Err(_) => break,
+                }
+            }
+        });
+        Responder { addr, stop, thread: Some(thread) }
+    }
+}
+
+impl Drop for Responder {
+    fn drop(&mut self) {
+        self.stop.store(true, Ordering::Relaxed);
+        if let Some(t) = self.thread.take() {
+            let _ = t.join();
+        }
+    }
+}
+
+/// A pid that is certainly dead: a reaped child, or (pid_max permitting) a pid the kernel never hands out.
+fn dead_pid(rng: &mut Rng) -> Option<u32> {
+    if rng.chance(3, 4) {
+        if let Ok(mut c) = Command::new("true").stdin(Stdio::null()).stdout(Stdio::null()).stderr(Stdio::null()).spawn() {
+            let pid = c.id();
+            let _ = c.wait();
+            if ripd::pid_liveness(pid) == ripd::PidLiveness::Dead {
+                return Some(pid);
+            }
+        }
+    }
+    let pid_max: u32 = std::fs::read_to_string("/proc/sys/kernel/pid_max")
+        .ok()
+        .and_then(|s| s.trim().parse().ok())
+        .unwrap_or(4_194_304);
+    let pid = pid_max + 1000 + rng.below(100_000) as u32;
+    (ripd::pid_liveness(pid) == ripd::PidLiveness::Dead).then_some(pid)
+}
+
+/// port 1 (tcpmux) is privileged and unused: connections are refused and no test process can ever bind it
+const REFUSED_ENDPOINT: &str = "http://127.0.0.1:1";
+
+fn lock_json(pid: u32, started: u64, ws: &Path) -> Vec<u8> {
+    let mut v = serde_json::to_vec(&json!({"pid": pid, "started_at_ms": started, "workspace_root": ws.to_string_lossy()})).unwrap();
+    v.push(b'\n');
+    v
+}
+
+fn meta_json(endpoint: &str, pid: u32, started: u64, ws: &Path) -> Vec<u8> {
+    serde_json::to_vec(&json!({"endpoint": endpoint, "pid": pid, "started_at_ms": started, "workspace_root": ws.to_string_lossy()}))
+        .unwrap()
+}
+
+fn plant(left: Left, data: &Path, ws: &Path, rng: &mut Rng) -> Result<Planted, String> {
+    let dir = ripd::authority_dir(data);
+    std::fs::create_dir_all(&dir).map_err(|e| e.to_string())?;
+    let lock_path = ripd::authority_lock_path(data);
+    let meta_path = ripd::authority_meta_path(data);
+    let mut p = Planted { dead_pid: None, sleeper: None, responder: None, lock_bytes: None, meta_bytes: None };
+    let started = 1_700_000_000_000u64 + rng.below(1_000_000);
+    let mut lock: Option<Vec<u8>> = None;
+    let mut meta: Option<Vec<u8>> = None;
+    match left {
+        Left::Nothing => {
+            if rng.bool() {
+                let _ = std::fs::remove_dir_all(&dir); // the loop must also create the directory
+            }
+        }
+        Left::DeadLock | Left::DeadLockMeta | Left::DeadLockMetaDrift | Left::DeadMetaOnly | Left::EmptyLockDeadMeta => {
+            let pid = dead_pid(rng).ok_or("no dead pid available")?;
+            p.dead_pid = Some(pid);
+            match left {
+                Left::DeadLock => lock = Some(lock_json(pid, started, ws)),
+                Left::DeadLockMeta => {
+                    lock = Some(lock_json(pid, started, ws));
+                    meta = Some(meta_json(REFUSED_ENDPOINT, pid, started, ws));
+                }
+                Left::DeadLockMetaDrift => {
+                    lock = Some(lock_json(pid, started, ws));
+                    meta = Some(meta_json(REFUSED_ENDPOINT, pid, started + 21, ws));
+                }
+                Left::DeadMetaOnly => meta = Some(meta_json(REFUSED_ENDPOINT, pid, started, ws)),
+                _ => {
+                    lock = Some(Vec::new());
+                    meta = Some(meta_json(REFUSED_ENDPOINT, pid, started, ws));
+                }
+            }
+        }
+        Left::EmptyLock => lock = Some(Vec::new()),
+        Left::HalfLock => {
+            let full = lock_json(4242, started, ws);
+            let cut = 1 + rng.usize(full.len() - 2);
+            lock = Some(full[..cut].to_vec());
+        }
+        Left::ShapelessLock => {
+            lock = Some(match rng.below(3) {
+                0 => b"{}\n".to_vec(),
+                1 => b"null".to_vec(),
+                _ => b"[1,2,3]".to_vec(),
+            })
+        }
+        Left::HalfLockSplitUtf8 => {
+            // a workspace path with a two-byte character, cut between its bytes
+            let mut v = b"{\"pid\":4242,\"started_at_ms\":1700000000000,\"workspace_root\":\"/tmp/w".to_vec();
+            v.push(0xC3);
+            lock = Some(v);
+        }
+        Left::LivePidLock | Left::LivePidLockMeta | Left::LiveEndpoint | Left::LiveEndpointForeignPid => {
+            let child = Command::new("sleep")
+                .arg("60")
+                .stdin(Stdio::null())
+                .stdout(Stdio::null())
+                .stderr(Stdio::null())
+                .spawn()
+                .map_err(|e| format!("spawn sleep: {e}"))?;
+            let live = child.id();
+            p.sleeper = Some(child);
+            if ripd::pid_liveness(live) != ripd::PidLiveness::Alive {
+                return Err("sleeping helper is not alive".into());
+            }
+            match left {
+                Left::LivePidLock => lock = Some(lock_json(live, started, ws)),
+                Left::LivePidLockMeta => {
+                    lock = Some(lock_json(live, started, ws));
+                    meta = Some(meta_json(REFUSED_ENDPOINT, live, started, ws));
+                }
+                Left::LiveEndpoint => {
+                    let r = Responder::start();
+                    lock = Some(lock_json(live, started, ws));
+                    meta = Some(meta_json(&format!("http://{}", r.addr), live, started, ws));
+                    p.responder = Some(r);
+                }
+                _ => {
+                    let pid = dead_pid(rng).ok_or("no dead pid available")?;
+                    p.dead_pid = Some(pid);
+                    let r = Responder::start();
+                    lock = Some(lock_json(pid, started, ws));
+                    meta = Some(meta_json(&format!("http://{}", r.addr), pid, started, ws));
+                    p.responder = Some(r);
+                }
+            }
+        }
+    }
+    if let Some(l) = &lock {
+        std::fs::write(&lock_path, l).map_err(|e| e.to_string())?;
+    }
+    if let Some(m) = &meta {
+        std::fs::write(&meta_path, m).map_err(|e| e.to_string())?;
+    }
+    p.lock_bytes = lock;
+    p.meta_bytes = meta;
+    Ok(p)
+}
+
+// ---------------------------------------------------------------------------------------------
+// (A) the in-process monitor
+
+thread_local! {
+    /// contender number of this thread (1-based); 0 = not a contender of the current case
+    static ROLE: Cell<usize> = const { Cell::new(0) };
+}
+
+#[derive(Clone, Debug)]
+enum Cond {
+    /// became an observed holder at least once
+    Entered(usize),
+    /// an acquire attempt has returned (Ok or Err)
+    Returned(usize),
+    /// guard drop completed at least once
+    Dropped(usize),
+    /// the contender thread has finished all its attempts
+    Done(usize),
+    Passed(usize, &'static str, u64),
+    AnyOf(Vec<Cond>),
+}
+
+#[derive(Clone, Debug)]
+struct Park {
+    who: usize,
+    at: &'static str,
+    nth: u64,
+    until: Cond,
+    timeout_ms: u64,
+    hits: u64,
+    fired: bool,
+    timed_out: bool,
+    /// a park that simply lasts `timeout_ms` (its expiry is the schedule, not a failure)
+    timed: bool,
+}
+
+fn park(who: usize, at: &'static str, until: Cond) -> Park {
+    Park { who, at, nth: 1, until, timeout_ms: 5000, hits: 0, fired: false, timed_out: false, timed: false }
+}
+
+fn park_for(who: usize, at: &'static str, ms: u64) -> Park {
+    Park { who, at, nth: 1, until: Cond::AnyOf(vec![]), timeout_ms: ms, hits: 0, fired: false, timed_out: false, timed: true }
+}
+
+#[derive(Clone, Debug)]
+struct Incident {
+    kind: &'static str, // "two_holders" | "live_lock_taken"
+    at: usize,          // trace index of the detecting event
+    victim: usize,
+    by: usize,
+    point: String,
+    detail: String,
+}
+
+#[derive(Default)]
+struct MonState {
+    holders: Vec<(usize, u32, u64)>,
+    trace: Vec<(usize, String, u64)>,
+    entered: HashMap<usize, u64>,
+    returned: HashMap<usize, u64>,
+    dropped: HashMap<usize, u64>,
+    done: HashMap<usize, u64>,
+    passed: HashMap<(usize, &'static str), u64>,
+    incidents: Vec<Incident>,
+    flagged_victims: Vec<usize>,
+    intact_checks: u64,
+    parks: Vec<Park>,
+    errors: Vec<(usize, String)>,
+    acquisitions: u64,
+    hold_timeouts: u64,
+    noise_us: u64,
+    noise_rng: Option<Rng>,
+}
+
+struct Mon {
+    st: Mutex<MonState>,
+    cv: Condvar,
+    lock_path: PathBuf,
+    t0: Instant,
+}
+
+fn cond_holds(st: &MonState, c: &Cond) -> bool {
+    match c {
+        Cond::Entered(w) => st.entered.get(w).copied().unwrap_or(0) > 0,
+        Cond::Returned(w) => st.returned.get(w).copied().unwrap_or(0) > 0,
+        Cond::Dropped(w) => st.dropped.get(w).copied().unwrap_or(0) > 0,
+        Cond::Done(w) => st.done.get(w).copied().unwrap_or(0) > 0,
+        Cond::Passed(w, p, n) => st.passed.get(&(*w, *p)).copied().unwrap_or(0) >= *n,
+        Cond::AnyOf(v) => v.iter().any(|c| cond_holds(st, c)),
+    }
+}
+
+impl Mon {
+    fn new(lock_path: PathBuf, parks: Vec<Park>, noise_us: u64, noise_seed: u64) -> Mon {
+        Mon {
+            st: Mutex::new(MonState { parks, noise_us, noise_rng: Some(Rng::new(noise_seed)), ..Default::default() }),
+            cv: Condvar::new(),
+            lock_path,
+            t0: Instant::now(),
+        }
+    }
+
+    fn push(&self, g: &mut MonState, who: usize, what: String) {
+        let us = self.t0.elapsed().as_micros() as u64;
+        g.trace.push((who, what, us));
+    }
+
+    fn lock(&self) -> MutexGuard<'_, MonState> {
+        self.st.lock().unwrap_or_else(|e| e.into_inner())
+    }
+
+    /// While exactly one observed holder exists, `lock.json` must carry its record.
+    fn check_intact(&self, g: &mut MonState, by: usize, point: &str) {
+        if g.holders.len() != 1 {
+            return;
+        }
+        let (h, pid, started) = g.holders[0];
+        if g.flagged_victims.contains(&h) {
+            return;
+        }
+        g.intact_checks += 1;
+        let problem = match std::fs::read(&self.lock_path) {
+            Err(_) => Some("lock.json does not exist".to_string()),
+            Ok(bytes) => match serde_json::from_slice::<Value>(&bytes) {
+                Ok(v) if v.get("pid").and_then(|x| x.as_u64()) == Some(pid as u64)
+                    && v.get("started_at_ms").and_then(|x| x.as_u64()) == Some(started) =>
+                {
+                    None
+                }
+                Ok(v) => Some(format!("lock.json carries another record: {v}")),
+                Err(_) => Some(format!("lock.json is not the holder's record ({} bytes)", bytes.len())),
+            },
+        };
+        if let Some(detail) = problem {
+            g.flagged_victims.push(h);
+            let at = g.trace.len().saturating_sub(1);
+            g.incidents.push(Incident { kind: "live_lock_taken", at, victim: h, by, point: point.to_string(), detail });
+        }
+    }
+
+    fn on_point(&self, point: &'static str) {
+        if !point.starts_with("auth.") {
+            return;
+        }
+        let who = ROLE.with(|r| r.get());
+        if who == 0 {
+            return;
+        }
+        let mut g = self.lock();
+        self.push(&mut g, who, point.to_string());
+        *g.passed.entry((who, point)).or_insert(0) += 1;
+        self.check_intact(&mut g, who, point);
+        self.cv.notify_all();
+        let mut idx = None;
+        for (i, p) in g.parks.iter_mut().enumerate() {
+            if !p.fired && p.who == who && p.at == point {
+                p.hits += 1;
+                if p.hits == p.nth {
+                    p.fired = true;
+                    idx = Some(i);
+                    break;
+                }
+            }
+        }
+        if let Some(i) = idx {
+            let until = g.parks[i].until.clone();
+            let deadline = Instant::now() + Duration::from_millis(g.parks[i].timeout_ms);
+            self.push(&mut g, who, format!("parked@{point}"));
+            loop {
+                if cond_holds(&g, &until) {
+                    break;
+                }
+                let now = Instant::now();
+                if now >= deadline {
+                    g.parks[i].timed_out = !g.parks[i].timed;
+                    break;
+                }
+                g = self.cv.wait_timeout(g, deadline - now).unwrap_or_else(|e| e.into_inner()).0;
+            }
+            self.push(&mut g, who, format!("resumed@{point}"));
+        }
+        // seeded noise *after* the event was recorded, so that the trace order stays close to the real order
+        let mut sleep_us = 0;
+        if g.noise_us > 0 {
+            let max = g.noise_us;
+            if let Some(rng) = g.noise_rng.as_mut() {
+                sleep_us = match rng.below(3) {
+                    0 => 0,
+                    1 => rng.below(max / 8 + 1),
+                    _ => rng.below(max + 1),
+                };
+            }
+        }
+        drop(g);
+        if sleep_us > 0 {
+            std::thread::sleep(Duration::from_micros(sleep_us));
+        }
+    }
+
+    fn enter(&self, who: usize, pid: u32, started: u64) {
+        let mut g = self.lock();
+        self.push(&mut g, who, "enter".to_string());
+        g.acquisitions += 1;
+        if let Some(&(other, _, _)) = g.holders.first() {
+            let at = g.trace.len() - 1;
+            g.incidents.push(Incident {
+                kind: "two_holders",
+                at,
+                victim: other,
+                by: who,
+                point: "acquire returned Ok".to_string(),
+                detail: format!("contender {who} acquired while contender {other} still holds its guard"),
+            });
+        }
+        g.holders.push((who, pid, started));
+        self.check_intact(&mut g, who, "enter");
+        *g.entered.entry(who).or_insert(0) += 1;
+        *g.returned.entry(who).or_insert(0) += 1;
+        self.cv.notify_all();
+    }
+
+    fn leave(&self, who: usize) {
+        let mut g = self.lock();
+        self.push(&mut g, who, "leave".to_string());
+        if g.holders.len() == 1 && g.holders[0].0 == who {
+            self.check_intact(&mut g, who, "leave");
+        }
+        g.holders.retain(|h| h.0 != who);
+        self.cv.notify_all();
+    }
+
+    fn mark(&self, who: usize, what: &str, err: Option<String>) {
+        let mut g = self.lock();
+        self.push(&mut g, who, what.to_string());
+        match what {
+            "dropped" => *g.dropped.entry(who).or_insert(0) += 1,
+            "err" => {
+                *g.returned.entry(who).or_insert(0) += 1;
+                if let Some(e) = err {
+                    g.errors.push((who, e));
+                }
+            }
+            "done" => *g.done.entry(who).or_insert(0) += 1,
+            _ => {}
+        }
+        self.cv.notify_all();
+    }
+
+    fn wait(&self, c: &Cond, timeout_ms: u64) -> bool {
+        let deadline = Instant::now() + Duration::from_millis(timeout_ms);
+        let mut g = self.lock();
+        loop {
+            if cond_holds(&g, c) {
+                return true;
+            }
+            let now = Instant::now();
+            if now >= deadline {
+                g.hold_timeouts += 1;
+                return false;
+            }
+            g = self.cv.wait_timeout(g, deadline - now).unwrap_or_else(|e| e.into_inner()).0;
+        }
+    }
+}
+
+#[derive(Clone, Debug)]
+enum Hold {
+    Ms(u64),
+    /// hold until the condition (bounded), then a few ms more
+    Until(Cond),
+}
+
+#[derive(Clone, Debug)]
+struct CSpec {
+    id: usize,
+    start_ms: u64,
+    start_after: Option<Cond>,
+    foreign_ws: bool,
+    write_meta: bool,
+    hold: Hold,
+    attempts: u32,
+    gap_ms: u64,
+}
+
+fn contender(id: usize) -> CSpec {
+    CSpec { id, start_ms: 0, start_after: None, foreign_ws: false, write_meta: false, hold: Hold::Ms(5), attempts: 1, gap_ms: 0 }
+}
+
+struct Case {
+    /// directed schedule name, or "noise"
+    mode: String,
+    left: Left,
+    contenders: Vec<CSpec>,
+    parks: Vec<Park>,
+    noise_us: u64,
+    /// what the schedule is expected to show on a correct implementation: nothing
+    directed: bool,
+}
+
+const TAKE_POINTS: &[(&str, &str)] = &[
+    ("auth.stale.renamed", "stale_cleanup_renames_fresh_lock"),
+    ("auth.corrupt.renamed", "corrupt_cleanup_renames_fresh_lock"),
+    ("auth.drop.lock", "drop_removes_foreign_lock"),
+];
+
+/// Which file-system step took the lock? Judged from the recorded hook trace.
+fn attribute(trace: &[(usize, String, u64)], inc: &Incident) -> &'static str {
+    let is_take = |p: &str| TAKE_POINTS.iter().find(|(tp, _)| *tp == p).map(|(_, c)| *c);
+    // another acquirer that has been between `auth.created` and `auth.written` for ≥ 0.9 s at trace position `t`?
+    let stalled_acquirer_at = |t: usize, not: usize| -> bool {
+        let mut open: BTreeMap<usize, u64> = BTreeMap::new();
+        for (w, p, us) in &trace[..t.min(trace.len())] {
+            if p == "auth.created" {
+                open.insert(*w, *us);
+            } else if p == "auth.written" {
+                open.remove(w);
+            }
+        }
+        let now = trace[t.min(trace.len() - 1)].2;
+        open.iter().any(|(w, since)| *w != not && now.saturating_sub(*since) >= 900_000)
+    };
+    let classify = |t: usize| -> Option<&'static str> {
+        let (w, p, _) = &trace[t];
+        let c = is_take(p)?;
+        if p == "auth.corrupt.renamed" && stalled_acquirer_at(t, *w) {
+            return Some("corrupt_grace_elapsed_on_live_slow_acquirer");
+        }
+        Some(c)
+    };
+    if trace.is_empty() {
+        return "unattributed";
+    }
+    let d = inc.at.min(trace.len() - 1);
+    // the detecting event itself, then backwards (not past the victim's own create), then forwards
+    let victim_ok = |t: usize| trace[t].0 != inc.victim || inc.kind == "two_holders";
+    if victim_ok(d) {
+        if let Some(c) = classify(d) {
+            return c;
+        }
+    }
+    let mut t = d;
+    while t > 0 {
+        t -= 1;
+        if inc.kind == "live_lock_taken" && trace[t].0 == inc.victim && trace[t].1 == "auth.created" {
+            break;
+        }
+        if victim_ok(t) {
+            if let Some(c) = classify(t) {
+                return c;
+            }
+        }
+    }
+    for t in d + 1..trace.len() {
+        if victim_ok(t) {
+            if let Some(c) = classify(t) {
+                return c;
+            }
+        }
+    }
+    "unattributed"
+}
+
+struct CaseOutcome {
+    trace: Vec<(usize, String, u64)>,
+    incidents: Vec<Incident>,
+    acquisitions: u64,
+    acquired_by: Vec<usize>,
+    errors: Vec<(usize, String)>,
+    intact_checks: u64,
+    parks_timed_out: Vec<String>,
+    parks_fired: u64,
+    files_changed: Option<String>,
+    solo_retry: Option<Result<(), String>>,
+    dead_pid_still_dead: bool,
+    plant_error: Option<String>,
+    wall_ms: u64,
+}
+
+fn acquire_blocking(data: &Path, ws: &Path) -> Result<ripd::AuthorityLockGuard, String> {
+    let rt = tokio::runtime::Builder::new_current_thread()
+        .enable_all()
+        .build()
+        .map_err(|e| format!("runtime: {e}"))?;
+    rt.block_on(ripd::verif_export::acquire_authority_lock_with_recovery(data, ws))
+}
+
+fn run_inproc_case(case: &Case, rng: &mut Rng) -> CaseOutcome {
+    let t0 = Instant::now();
+    let store = Store::new("c18");
+    let s = sched();
+    s.reset();
+    let mut out = CaseOutcome {
+        trace: Vec::new(),
+        incidents: Vec::new(),
+        acquisitions: 0,
+        acquired_by: Vec::new(),
+        errors: Vec::new(),
+        intact_checks: 0,
+        parks_timed_out: Vec::new(),
+        parks_fired: 0,
+        files_changed: None,
+        solo_retry: None,
+        dead_pid_still_dead: true,
+        plant_error: None,
+        wall_ms: 0,
+    };
+    let planted = match plant(case.left, &store.data, &store.ws, rng) {
+        Ok(p) => p,
+        Err(e) => {
+            out.plant_error = Some(e);
+            return out;
+        }
+    };
+    let mon = Arc::new(Mon::new(ripd::authority_lock_path(&store.data), case.parks.clone(), case.noise_us, rng.next_u64()));
+    {
+        let m = mon.clone();
+        s.set_custom(Some(Arc::new(move |p, _ctx| m.on_point(p))));
+    }
+    let foreign_ws = store.dir.join("other-ws");
+    let _ = std::fs::create_dir_all(&foreign_ws);
+    let mut handles = Vec::new();
+    for c in &case.contenders {
+        let c = c.clone();
+        let mon = mon.clone();
+        let data = store.data.clone();
+        let ws = if c.foreign_ws { foreign_ws.clone() } else { store.ws.clone() };
+        handles.push(std::thread::spawn(move || {
+            ROLE.with(|r| r.set(c.id));
+            if let Some(cond) = &c.start_after {
+                mon.wait(cond, 5000);
+            }
+            if c.start_ms > 0 {
+                std::thread::sleep(Duration::from_millis(c.start_ms));
+            }
+            let mut got = 0u32;
+            for attempt in 0..c.attempts {
+                if attempt > 0 && c.gap_ms > 0 {
+                    std::thread::sleep(Duration::from_millis(c.gap_ms));
+                }
+                match acquire_blocking(&data, &ws) {
+                    Ok(guard) => {
+                        got += 1;
+                        let rec = guard.record().clone();
+                        mon.enter(c.id, rec.pid, rec.started_at_ms);
+                        if c.write_meta {
+                            let _ = guard.write_meta(REFUSED_ENDPOINT);
+                        }
+                        match &c.hold {
+                            Hold::Ms(ms) => std::thread::sleep(Duration::from_millis(*ms)),
+                            Hold::Until(cond) => {
+                                mon.wait(cond, 5000);
+                                std::thread::sleep(Duration::from_millis(3));
+                            }
+                        }
+                        mon.leave(c.id);
+                        drop(guard);
+                        mon.mark(c.id, "dropped", None);
+                    }
+                    Err(e) => mon.mark(c.id, "err", Some(e)),
+                }
+            }
+            mon.mark(c.id, "done", None);
+            ROLE.with(|r| r.set(0));
+            got
+        }));
+    }
+    for (h, c) in handles.into_iter().zip(case.contenders.iter()) {
+        if let Ok(n) = h.join() {
+            if n > 0 {
+                out.acquired_by.push(c.id);
+            }
+        }
+    }
+    s.set_custom(None);
+    s.reset();
+    {
+        let mut g = mon.lock();
+        out.trace = std::mem::take(&mut g.trace);
+        out.incidents = std::mem::take(&mut g.incidents);
+        out.acquisitions = g.acquisitions;
+        out.errors = std::mem::take(&mut g.errors);
+        out.intact_checks = g.intact_checks;
+        out.parks_fired = g.parks.iter().filter(|p| p.fired).count() as u64;
+        out.parks_timed_out = g
+            .parks
+            .iter()
+            .filter(|p| p.timed_out || !p.fired)
+            .map(|p| format!("{}@{}{}", p.who, p.at, if p.fired { " timed out" } else { " never reached" }))
+            .collect();
+    }
+    if let Some(pid) = planted.dead_pid {
+        out.dead_pid_still_dead = ripd::pid_liveness(pid) == ripd::PidLiveness::Dead;
+    }
+    if case.left.live() {
+        // the files of the live authority must be byte-identical
+        let lock_now = std::fs::read(ripd::authority_lock_path(&store.data)).ok();
+        let meta_now = std::fs::read(ripd::authority_meta_path(&store.data)).ok();
+        if lock_now != planted.lock_bytes {
+            out.files_changed = Some(format!(
+                "lock.json changed: now {:?}",
+                lock_now.map(|b| String::from_utf8_lossy(&b).to_string())
+            ));
+        } else if meta_now != planted.meta_bytes {
+            out.files_changed = Some(format!(
+                "meta.json changed: now {:?}",
+                meta_now.map(|b| String::from_utf8_lossy(&b).to_string())
+            ));
+        }
+    } else if out.acquisitions == 0 && !case.contenders.iter().all(|c| c.foreign_ws) {
+        // bounded progress failed inside the loops' own deadline: is the store wedged for good?
+        // One more uncontended attempt without any injected delay decides.
+        ROLE.with(|r| r.set(0));
+        out.solo_retry = Some(acquire_blocking(&store.data, &store.ws).map(drop));
+    }
+    drop(planted);
+    out.wall_ms = t0.elapsed().as_millis() as u64;
+    out
+}
+
+fn trace_json(trace: &[(usize, String, u64)]) -> Value {
+    let shown: Vec<String> = trace.iter().take(400).map(|(w, p, us)| format!("{w}:{p}@{}ms", us / 1000)).collect();
+    json!(shown)
+}
+
+fn interleaving_hash(case: &Case, trace: &[(usize, String, u64)]) -> u64 {
+    let mut map: HashMap<usize, usize> = HashMap::new();
+    let mut s = format!("{}|{}|", case.left.name(), case.mode);
+    for (w, p, _) in trace {
+        let n = map.len();
+        let t = *map.entry(*w).or_insert(n);
+        s.push_str(&format!("{t}:{p};"));
+    }
+    fnv_str(&s)
+}
+
+fn judge_inproc(r: &mut Report, idx: u64, case: &Case, out: &CaseOutcome) {
+    if let Some(e) = &out.plant_error {
+        r.inconclusive(&format!("case {idx} ({}): could not plant leftover state: {e}", case.left.name()));
+        return;
+    }
+    let witness = |extra: Value| {
+        json!({
+            "case": idx, "part": "in_process", "mode": case.mode, "leftover": case.left.name(),
+            "contenders": case.contenders.iter().map(|c| format!("{c:?}")).collect::<Vec<_>>(),
+            "parks": case.parks.iter().map(|p| format!("park contender {} at {} until {:?}", p.who, p.at, p.until)).collect::<Vec<_>>(),
+            "noise_us": case.noise_us,
+            "acquired_by": out.acquired_by, "errors": out.errors.iter().take(8).map(|(w, e)| format!("{w}: {e}")).collect::<Vec<_>>(),
+            "trace": trace_json(&out.trace), "detail": extra,
+        })
+    };
+    r.eval();
+    r.count("inproc_cases", 1);
+    r.count(&format!("inproc_cases_from_{}", case.left.name()), 1);
+    r.count("inproc_contenders", case.contenders.len() as u64);
+    r.count("inproc_acquisitions", out.acquisitions);
+    r.count("inproc_loops_returned_err", out.errors.len() as u64);
+    r.count("inproc_auth_hook_events", out.trace.iter().filter(|(_, p, _)| p.starts_with("auth.")).count() as u64);
+    r.count("inproc_lock_intact_checks_while_held", out.intact_checks);
+    r.count("inproc_rendezvous_fired", out.parks_fired);
+    let contending: BTreeSet<usize> = out.trace.iter().filter(|(_, p, _)| p.starts_with("auth.")).map(|(w, _, _)| *w).collect();
+    if contending.len() >= 2 || (case.contenders.len() == 1 && !out.trace.is_empty()) {
+        r.distinct(interleaving_hash(case, &out.trace));
+    }
+    if case.directed && !out.parks_timed_out.is_empty() {
+        r.inconclusive(&format!(
+            "case {idx}: directed schedule {} was not realised ({})",
+            case.mode,
+            out.parks_timed_out.join(", ")
+        ));
+        return;
+    }
+    // safety: group incidents by the step that took the lock
+    let mut by_cause: BTreeMap<&'static str, Vec<&Incident>> = BTreeMap::new();
+    for inc in &out.incidents {
+        by_cause.entry(attribute(&out.trace, inc)).or_default().push(inc);
+    }
+    for (cause, incs) in &by_cause {
+        let kinds: BTreeSet<&str> = incs.iter().map(|i| i.kind).collect();
+        let first = incs[0];
+        r.violation(
+            &format!("C18/{cause}/{}", case.mode),
+            &format!(
+                "{} from leftover state {}: {} (contender {} at {}: {})",
+                kinds.iter().cloned().collect::<Vec<_>>().join(" + "),
+                case.left.name(),
+                cause,
+                first.by,
+                first.point,
+                first.detail
+            ),
+            witness(json!(incs
+                .iter()
+                .map(|i| json!({"kind": i.kind, "victim": i.victim, "by": i.by, "point": i.point, "detail": i.detail, "trace_index": i.at}))
+                .collect::<Vec<_>>())),
+        );
+        r.count("inproc_incidents", incs.len() as u64);
+    }
+    if case.left.live() {
+        if out.acquisitions > 0 {
+            r.violation(
+                &format!("C18/live_leftover_lock_acquired/{}", case.left.name()),
+                &format!(
+                    "contender(s) {:?} acquired the authority role although the store has a live authority ({})",
+                    out.acquired_by,
+                    case.left.name()
+                ),
+                witness(json!(null)),
+            );
+        }
+        if let Some(ch) = &out.files_changed {
+            r.violation(
+                &format!("C18/live_leftover_files_changed/{}", case.left.name()),
+                &format!("files of a live authority were modified by recovery ({}): {ch}", case.left.name()),
+                witness(json!(ch)),
+            );
+        }
+        r.count("inproc_live_states_nobody_acquired", (out.acquisitions == 0) as u64);
+    } else if out.acquisitions == 0 {
+        match &out.solo_retry {
+            Some(Err(e)) if out.dead_pid_still_dead => {
+                r.violation(
+                    &format!("C18/not_usable_again/{}", case.left.name()),
+                    &format!(
+                        "no contender acquired within the recovery loop's own deadline and a later uncontended attempt failed too, \
+                         although the previous authority is gone ({}): {e}",
+                        case.left.name()
+                    ),
+                    witness(json!({"solo_retry_error": e})),
+                );
+            }
+            Some(Err(_)) => r.inconclusive(&format!("case {idx}: the dead pid was re-used by another process during the case")),
+            Some(Ok(())) => r.count("inproc_progress_only_on_later_attempt", 1),
+            None => {}
+        }
+    } else {
+        r.count("inproc_progress_cases_somebody_acquired", 1);
+    }
+    r.sample(json!({
+        "case": idx, "part": "in_process", "mode": case.mode, "leftover": case.left.name(),
+        "contenders": case.contenders.len(), "noise_us": case.noise_us, "acquired_by": out.acquired_by,
+        "errs": out.errors.len(), "hook_events": out.trace.len(), "intact_checks": out.intact_checks,
+        "incidents": out.incidents.len(), "wall_ms": out.wall_ms,
+    }));
+}
+
+// directed schedules ---------------------------------------------------------------------------
+
+const N_DIRECTED: u64 = 15;
+
+fn directed_case(k: u64) -> Case {
+    let a = 1usize;
+    let b = 2usize;
+    let c3 = 3usize;
+    match k {
+        // F19: B has re-read the dead lock, A cleans up and acquires, B renames A's fresh lock.
+        0 | 1 => {
+            let mut ca = contender(a);
+            ca.start_after = Some(Cond::Passed(b, "auth.stale.reread", 1));
+            ca.write_meta = k == 1;
+            ca.hold = Hold::Until(Cond::Dropped(b));
+            let mut cb = contender(b);
+            cb.hold = Hold::Ms(5);
+            Case {
+                mode: "park(B@auth.stale.reread)until(A_acquired)".into(),
+                left: if k == 0 { Left::DeadLock } else { Left::DeadLockMeta },
+                contenders: vec![ca, cb],
+                parks: vec![park(b, "auth.stale.reread", Cond::AnyOf(vec![Cond::Entered(a), Cond::Done(a)]))],
+                noise_us: 0,
+                directed: true,
+            }
+        }
+        // same window in the corrupt-lock cleanup: exists-check, then rename
+        2 => {
+            let mut ca = contender(a);
+            ca.start_after = Some(Cond::Passed(b, "auth.corrupt.checked", 1));
+            ca.hold = Hold::Until(Cond::Dropped(b));
+            let mut cb = contender(b);
+            cb.hold = Hold::Ms(5);
+            Case {
+                mode: "park(B@auth.corrupt.checked)until(A_acquired)".into(),
+                left: Left::EmptyLock,
+                contenders: vec![ca, cb],
+                parks: vec![park(b, "auth.corrupt.checked", Cond::AnyOf(vec![Cond::Entered(a), Cond::Done(a)]))],
+                noise_us: 0,
+                directed: true,
+            }
+        }
+        // F20: A is a live but slow acquirer (stalls > 1 s between create and write)
+        3 => {
+            let mut ca = contender(a);
+            ca.hold = Hold::Until(Cond::Done(b));
+            let mut cb = contender(b);
+            cb.start_after = Some(Cond::Passed(a, "auth.created", 1));
+            cb.hold = Hold::Until(Cond::AnyOf(vec![Cond::Entered(a), Cond::Done(a)]));
+            Case {
+                mode: "park(A@auth.created)for>1s_until(B_returned)".into(),
+                left: Left::Nothing,
+                contenders: vec![ca, cb],
+                parks: vec![park(a, "auth.created", Cond::AnyOf(vec![Cond::Entered(b), Cond::Done(b)]))],
+                noise_us: 0,
+                directed: true,
+            }
+        }
+        // Drop removes whatever lock.json is there: the victim of a theft drops while the thief holds
+        4 => {
+            let mut ca = contender(a);
+            ca.start_after = Some(Cond::Passed(b, "auth.stale.reread", 1));
+            ca.hold = Hold::Until(Cond::AnyOf(vec![Cond::Entered(b), Cond::Done(b)]));
+            let mut cb = contender(b);
+            cb.hold = Hold::Until(Cond::Done(c3));
+            let mut cc = contender(c3);
+            cc.start_after = Some(Cond::Dropped(a));
+            cc.hold = Hold::Ms(5);
+            Case {
+                mode: "park(B@auth.stale.reread)until(A_acquired);A_drops_while_B_holds;C_acquires".into(),
+                left: Left::DeadLock,
+                contenders: vec![ca, cb, cc],
+                parks: vec![park(b, "auth.stale.reread", Cond::AnyOf(vec![Cond::Entered(a), Cond::Done(a)]))],
+                noise_us: 0,
+                directed: true,
+            }
+        }
+        // a dropping guard parked between removing meta and removing the lock while others try
+        5 => {
+            let mut ca = contender(a);
+            ca.write_meta = true;
+            ca.hold = Hold::Ms(10);
+            let mut cb = contender(b);
+            cb.start_after = Some(Cond::Passed(a, "auth.drop.meta", 1));
+            let mut cc = contender(c3);
+            cc.start_after = Some(Cond::Dropped(a));
+            Case {
+                mode: "park(A@auth.drop.meta)until(B_returned)".into(),
+                left: Left::Nothing,
+                contenders: vec![ca, cb, cc],
+                parks: vec![park(a, "auth.drop.meta", Cond::Done(b))],
+                noise_us: 0,
+                directed: true,
+            }
+        }
+        // a holder re-writing meta (remove + rename) while others run the loop
+        6 => {
+            let mut ca = contender(a);
+            ca.write_meta = true;
+            ca.hold = Hold::Until(Cond::Done(b));
+            let mut cb = contender(b);
+            cb.start_after = Some(Cond::Passed(a, "auth.meta.removed", 1));
+            Case {
+                mode: "park(A@auth.meta.removed)until(B_returned)".into(),
+                left: Left::DeadLockMeta,
+                contenders: vec![ca, cb],
+                parks: vec![park(a, "auth.meta.removed", Cond::Done(b))],
+                noise_us: 0,
+                directed: true,
+            }
+        }
+        // live leftovers under contention: nobody may acquire, files must stay byte-identical
+        7..=9 | 14 => {
+            let left = [Left::LivePidLockMeta, Left::LiveEndpoint, Left::LivePidLock, Left::LiveEndpointForeignPid][if k == 14 { 3 } else { (k - 7) as usize }];
+            Case {
+                mode: "six_contenders_on_live_leftover".into(),
+                left,
+                contenders: (1..=6).map(contender).collect(),
+                parks: vec![],
+                noise_us: 1500,
+                directed: true,
+            }
+        }
+        // the grace period must protect an acquirer that is slow, but faster than 1 s
+        10 => {
+            let mut ca = contender(a);
+            ca.hold = Hold::Until(Cond::Done(b));
+            let mut cb = contender(b);
+            cb.start_after = Some(Cond::Passed(a, "auth.created", 1));
+            Case {
+                mode: "park(A@auth.created)for0.4s".into(),
+                left: Left::Nothing,
+                contenders: vec![ca, cb],
+                parks: vec![park_for(a, "auth.created", 400)],
+                noise_us: 0,
+                directed: true,
+            }
+        }
+        // a single contender on each dead leftover: plain bounded progress
+        11 => Case {
+            mode: "one_contender_progress".into(),
+            left: Left::DeadLockMetaDrift,
+            contenders: vec![contender(1)],
+            parks: vec![],
+            noise_us: 0,
+            directed: true,
+        },
+        // progress from the awkward corrupt leftovers
+        12 => Case {
+            mode: "two_contenders_progress".into(),
+            left: Left::HalfLockSplitUtf8,
+            contenders: vec![contender(1), contender(2)],
+            parks: vec![],
+            noise_us: 0,
+            directed: true,
+        },
+        _ => Case {
+            mode: "two_contenders_progress".into(),
+            left: Left::EmptyLockDeadMeta,
+            contenders: vec![contender(1), contender(2)],
+            parks: vec![],
+            noise_us: 0,
+            directed: true,
+        },
+    }
+}
+
+fn noise_case(rng: &mut Rng, cfg: &Cfg) -> Case {
+    // corrupt leftovers cost ≥ 1 s each (grace period): keep them to a fraction of the cases
+    let left = if rng.chance(1, cfg.tier.pick(8, 6)) {
+        *rng.pick(&[Left::EmptyLock, Left::HalfLock, Left::ShapelessLock])
+    } else {
+        *rng.pick(&[
+            Left::Nothing,
+            Left::DeadLock,
+            Left::DeadLock,
+            Left::DeadLockMeta,
+            Left::DeadLockMeta,
+            Left::DeadLockMetaDrift,
+            Left::DeadMetaOnly,
+            Left::LivePidLock,
+            Left::LivePidLockMeta,
+            Left::LiveEndpoint,
+            Left::LiveEndpointForeignPid,
+        ])
+    };
+    let n = match rng.below(4) {
+        0 => 2,
+        1 => 3,
+        2 => 4 + rng.usize(2),
+        _ => 6,
+    };
+    let noise_us = [0u64, 200, 2000, 8000][rng.usize(4)];
+    let mut contenders = Vec::new();
+    for id in 1..=n {
+        let mut c = contender(id);
+        c.start_ms = if rng.bool() { 0 } else { rng.below(25) };
+        c.write_meta = rng.chance(1, 3);
+        c.hold = Hold::Ms(rng.below(25));
+        c.attempts = if rng.chance(1, 4) { 2 } else { 1 };
+        c.gap_ms = rng.below(30);
+        c.foreign_ws = rng.chance(1, 16);
+        contenders.push(c);
+    }
+    Case { mode: "noise".into(), left, contenders, parks: vec![], noise_us, directed: false }
+}
+
+// ---------------------------------------------------------------------------------------------
+// (B) multi-process rounds on the real binary
+
+#[derive(Clone, Copy, Debug, PartialEq, Eq)]
+enum MpLeft {
+    Nothing,
+    DeadLock,
+    DeadLockMeta,
+    EmptyLock,
+    HalfLock,
+    LiveIncumbent,
+    AfterKill9,
+    /// leftover produced by real `rip serve` processes aborted (RIP_VERIF_ABORT) at hook points
+    Crash(usize),
+}
+
+/// (name, [(what to plant first, abort point)]) — each step is one real process that aborts at the point
+const CRASH_RECIPES: &[(&str, &[(&str, &str)])] = &[
+    ("crash@auth.created", &[("", "auth.created")]),
+    ("crash@auth.written", &[("", "auth.written")]),
+    ("crash@auth.meta.removed", &[("", "auth.meta.removed")]),
+    ("crash@auth.meta.renamed", &[("", "auth.meta.renamed")]),
+    ("dead_lock_and_meta,crash@auth.stale.renamed", &[("dead_lock_meta", "auth.stale.renamed")]),
+    ("dead_lock_and_meta,crash@auth.stale.meta", &[("dead_lock_meta", "auth.stale.meta")]),
+    ("empty_lock,crash@auth.corrupt.renamed", &[("empty_lock", "auth.corrupt.renamed")]),
+    ("dead_lock_and_meta,crash@auth.stale.renamed,crash@auth.created", &[("dead_lock_meta", "auth.stale.renamed"), ("", "auth.created")]),
+];
+
+impl MpLeft {
+    fn name(&self) -> &'static str {
+        match self {
+            MpLeft::Nothing => "nothing",
+            MpLeft::DeadLock => "dead_lock_only",
+            MpLeft::DeadLockMeta => "dead_lock_and_meta",
+            MpLeft::EmptyLock => "empty_lock",
+            MpLeft::HalfLock => "half_written_lock",
+            MpLeft::LiveIncumbent => "live_incumbent_rip_serve",
+            MpLeft::AfterKill9 => "files_of_the_sigkilled_winner",
+            MpLeft::Crash(i) => CRASH_RECIPES[*i % CRASH_RECIPES.len()].0,
+        }
+    }
+}
+
+/// Which cleanup path do contenders have to take from the files present at the start of a round?
+fn mp_cause(data: &Path, incumbent: bool, slow: bool) -> &'static str {
+    if incumbent {
+        return "incumbent_displaced";
+    }
+    if slow {
+        return "corrupt_grace_elapsed_on_live_slow_acquirer";
+    }
+    match std::fs::read(ripd::authority_lock_path(data)) {
+        Err(_) => "unattributed_from_nothing",
+        Ok(bytes) => match serde_json::from_slice::<Value>(&bytes) {
+            Ok(v) if v.get("pid").and_then(|x| x.as_u64()).is_some() => "stale_cleanup_renames_fresh_lock",
+            _ => "corrupt_cleanup_renames_fresh_lock",
+        },
+    }
+}
+
+fn serve_cmd(bin: &Path, data: &Path, ws: &Path, delay: &str) -> Command {
+    let mut c = Command::new(bin);
+    c.arg("serve")
+        .env("RIP_SERVER_ADDR", "127.0.0.1:0")
+        .env("RIP_DATA_DIR", data)
+        .env("RIP_WORKSPACE_ROOT", ws)
+        .env_remove("RIP_VERIF_ABORT")
+        .current_dir(ws);
+    if delay.is_empty() {
+        c.env_remove("RIP_VERIF_DELAY");
+    } else {
+        c.env("RIP_VERIF_DELAY", delay);
+    }
+    c
+}
+
+fn client_cmd(bin: &Path, data: &Path, ws: &Path, delay: &str) -> Command {
+    let mut c = Command::new(bin);
+    c.args(["tasks", "list"])
+        .env("RIP_DATA_DIR", data)
+        .env("RIP_WORKSPACE_ROOT", ws)
+        .env_remove("RIP_VERIF_ABORT")
+        .current_dir(ws)
+        .process_group(0);
+    if delay.is_empty() {
+        c.env_remove("RIP_VERIF_DELAY");
+    } else {
+        c.env("RIP_VERIF_DELAY", delay);
+    }
+    c
+}
+
+fn random_delay_spec(rng: &mut Rng) -> String {
+    match rng.below(5) {
+        0 => String::new(),
+        1 => format!("auth.*={}", [300u64, 3000, 15000][rng.usize(3)]),
+        2 => format!(
+            "auth.stale.reread={},auth.corrupt.checked={}",
+            [5000u64, 30000, 80000][rng.usize(3)],
+            [5000u64, 30000, 80000][rng.usize(3)]
+        ),
+        3 => format!("auth.created={},auth.written={}", rng.below(4000), rng.below(4000)),
+        _ => format!(
+            "auth.stale.reread={},auth.stale.renamed={},auth.corrupt.checked={},auth.drop.*={}",
+            rng.below(40000),
+            rng.below(10000),
+            rng.below(40000),
+            rng.below(5000)
+        ),
+    }
+}
+
+/// endpoints announced by authorities that `rip` clients spawned (they log to authority.log)
+fn logged_endpoints(data: &Path) -> Vec<String> {
+    let p = ripd::authority_dir(data).join("authority.log");
+    let t = std::fs::read_to_string(p).unwrap_or_default();
+    t.lines()
+        .filter_map(|l| l.strip_prefix("ripd listening on ").map(|r| r.trim().to_string()))
+        .collect()
+}
+
+struct RoundResult {
+    serving: Vec<String>,
+    serving_pids: Vec<Option<u32>>,
+    max_listening_alive: usize,
+    n_serve: usize,
+    n_cli: usize,
+    cli_ok: usize,
+    cli_failed: Vec<String>,
+    timed_out: bool,
+    lock_now: Option<Value>,
+    meta_now: Option<Value>,
+    stderr_tail: Vec<String>,
+}
+
+/// One contention round. `procs` accumulates every direct child (they are finished by the caller).
+#[allow(clippy::too_many_arguments)]
+fn mp_round(
+    bin: &Path,
+    data: &Path,
+    ws: &Path,
+    n_serve: usize,
+    n_cli: usize,
+    slow_first: bool,
+    rng: &mut Rng,
+    procs: &mut Vec<Proc>,
+    groups: &mut Vec<u32>,
+    known_endpoints: &mut Vec<(String, Option<u32>)>,
+) -> RoundResult {
+    let first = procs.len();
+    let mut kinds: Vec<bool> = Vec::new(); // true = serve
+    let mut order: Vec<bool> = std::iter::repeat(true).take(n_serve).chain(std::iter::repeat(false).take(n_cli)).collect();
+    rng.shuffle(&mut order);
+    let stagger = rng.chance(1, 3);
+    for (i, is_serve) in order.iter().enumerate() {
+        let delay = if slow_first && i == 0 { "auth.created=3000000".to_string() } else { random_delay_spec(rng) };
+        let cmd = if *is_serve || (slow_first && i == 0) { serve_cmd(bin, data, ws, &delay) } else { client_cmd(bin, data, ws, &delay) };
+        let is_serve = *is_serve || (slow_first && i == 0);
+        match Proc::spawn(cmd) {
+            Ok(p) => {
+                if !is_serve {
+                    groups.push(p.pid);
+                }
+                procs.push(p);
+                kinds.push(is_serve);
+            }
+            Err(_) => {}
+        }
+        if stagger {
+            std::thread::sleep(Duration::from_millis(rng.below(12)));
+        }
+    }
+    // wait until every server has either exited or announced itself, and every client has exited
+    let deadline = Instant::now() + Duration::from_secs(if n_cli > 0 { 14 } else { 9 });
+    let mut max_listening_alive = 0usize;
+    let mut timed_out = false;
+    loop {
+        let mut pending = 0;
+        let mut listening_alive = 0;
+        for (k, p) in procs[first..].iter_mut().enumerate() {
+            let alive = p.alive();
+            if kinds[k] {
+                let l = p.listening().is_some();
+                if alive && l {
+                    listening_alive += 1;
+                } else if alive {
+                    pending += 1;
+                }
+            } else if alive {
+                pending += 1;
+            }
+        }
+        max_listening_alive = max_listening_alive.max(listening_alive);
+        if pending == 0 {
+            break;
+        }
+        if Instant::now() >= deadline {
+            timed_out = true;
+            break;
+        }
+        std::thread::sleep(Duration::from_millis(5));
+    }
+    std::thread::sleep(Duration::from_millis(120)); // meta.json of the last starter
+    // candidates: announced endpoints of live direct children, and of authorities spawned by clients
+    for (k, p) in procs[first..].iter_mut().enumerate() {
+        if kinds[k] && p.alive() {
+            if let Some(ep) = p.listening() {
+                if !known_endpoints.iter().any(|(e, _)| *e == ep) {
+                    known_endpoints.push((ep, Some(p.pid)));
+                }
+            }
+        }
+    }
+    for ep in logged_endpoints(data) {
+        if !known_endpoints.iter().any(|(e, _)| *e == ep) {
+            known_endpoints.push((ep, None));
+        }
+    }
+    // two sweeps: an endpoint that answers in both was serving during the whole first sweep
+    let sweep1: Vec<bool> = known_endpoints.iter().map(|(e, _)| openapi_reachable(e)).collect();
+    let sweep2: Vec<bool> = known_endpoints.iter().map(|(e, _)| openapi_reachable(e)).collect();
+    let mut serving = Vec::new();
+    let mut serving_pids = Vec::new();
+    for (i, (e, pid)) in known_endpoints.iter().enumerate() {
+        if sweep1[i] && sweep2[i] {
+            serving.push(e.clone());
+            serving_pids.push(*pid);
+        }
+    }
+    let mut cli_ok = 0;
+    let mut cli_failed = Vec::new();
+    let mut stderr_tail = Vec::new();
+    for (k, p) in procs[first..].iter_mut().enumerate() {
+        if !kinds[k] {
+            if p.exit == Some(0) {
+                cli_ok += 1;
+            } else {
+                cli_failed.push(format!("exit={:?} {}", p.exit, p.stderr_text().chars().take(300).collect::<String>()));
+            }
+        } else if !p.alive() && stderr_tail.len() < 3 {
+            let t = p.stderr_text();
+            stderr_tail.push(t.lines().last().unwrap_or("").chars().take(200).collect());
+        }
+    }
+    let lock_now = std::fs::read(ripd::authority_lock_path(data)).ok().and_then(|b| serde_json::from_slice(&b).ok());
+    let meta_now = std::fs::read(ripd::authority_meta_path(data)).ok().and_then(|b| serde_json::from_slice(&b).ok());
+    RoundResult {
+        serving,
+        serving_pids,
+        max_listening_alive,
+        n_serve: kinds.iter().filter(|k| **k).count(),
+        n_cli: kinds.iter().filter(|k| !**k).count(),
+        cli_ok,
+        cli_failed,
+        timed_out,
+        lock_now,
+        meta_now,
+        stderr_tail,
+    }
+}
+
+/// A live authority that is hung (SIGSTOP): pid alive, endpoint silent. Nobody may take its lock.
+fn mp_stopped_incumbent_case(r: &mut Report, idx: u64, rng: &mut Rng, bin: &Path, with_client: bool) {
+    let store = Store::new("c18mps");
+    let mut inc = match Proc::spawn(serve_cmd(bin, &store.data, &store.ws, "")) {
+        Ok(p) => p,
+        Err(e) => {
+            r.inconclusive(&format!("cannot spawn {}: {e}", bin.display()));
+            return;
+        }
+    };
+    let t0 = Instant::now();
+    while (inc.listening().is_none() || !ripd::authority_meta_path(&store.data).exists()) && inc.alive() && t0.elapsed() < Duration::from_secs(6) {
+        std::thread::sleep(Duration::from_millis(3));
+    }
+    let Some(ep) = inc.listening() else {
+        r.inconclusive(&format!("case {idx}: incumbent rip serve did not start"));
+        inc.finish();
+        return;
+    };
+    std::thread::sleep(Duration::from_millis(30));
+    let lock_before = std::fs::read(ripd::authority_lock_path(&store.data)).ok();
+    let meta_before = std::fs::read(ripd::authority_meta_path(&store.data)).ok();
+    kill_pid(inc.pid, libc::SIGSTOP);
+    std::thread::sleep(Duration::from_millis(20));
+    let n = 2 + rng.usize(5);
+    let mut procs: Vec<Proc> = Vec::new();
+    for _ in 0..n {
+        if let Ok(p) = Proc::spawn(serve_cmd(bin, &store.data, &store.ws, &random_delay_spec(rng))) {
+            procs.push(p);
+        }
+    }
+    // a client runs the client-side recovery loop (8 s deadline) against the hung authority
+    let mut client: Option<Proc> = None;
+    if with_client {
+        client = Proc::spawn(client_cmd(bin, &store.data, &store.ws, &random_delay_spec(rng))).ok();
+    }
+    let deadline = Instant::now() + Duration::from_secs(if with_client { 12 } else { 9 });
+    let mut usurpers: Vec<(u32, String)> = Vec::new();
+    loop {
+        let mut pending = 0;
+        if let Some(c) = client.as_mut() {
+            if c.alive() {
+                pending += 1;
+            }
+        }
+        for p in procs.iter_mut() {
+            if p.alive() {
+                match p.listening() {
+                    Some(e) => {
+                        if !usurpers.iter().any(|(q, _)| *q == p.pid) {
+                            usurpers.push((p.pid, e));
+                        }
+                    }
+                    None => pending += 1,
+                }
+            }
+        }
+        if pending == 0 || Instant::now() >= deadline {
+            break;
+        }
+        std::thread::sleep(Duration::from_millis(5));
+    }
+    let lock_after = std::fs::read(ripd::authority_lock_path(&store.data)).ok();
+    let meta_after = std::fs::read(ripd::authority_meta_path(&store.data)).ok();
+    for ep2 in logged_endpoints(&store.data) {
+        // an authority spawned by the client
+        usurpers.push((0, ep2));
+    }
+    if let Some(c) = client.as_mut() {
+        kill_group(c.pid, libc::SIGKILL);
+        c.finish();
+        r.count("mp_cli_clients", 1);
+    }
+    kill_pid(inc.pid, libc::SIGCONT);
+    let t1 = Instant::now();
+    let mut back = false;
+    while t1.elapsed() < Duration::from_secs(3) {
+        if openapi_reachable(&ep) {
+            back = true;
+            break;
+        }
+        std::thread::sleep(Duration::from_millis(20));
+    }
+    r.eval();
+    r.count("mp_rounds", 1);
+    r.count("mp_rounds_from_live_incumbent_stopped", 1);
+    r.count("mp_serve_processes", procs.len() as u64);
+    r.distinct_str(&format!("mp|stopped_incumbent|serve{}|usurpers{}", procs.len(), usurpers.len()));
+    let witness = json!({
+        "case": idx, "part": "multi_process", "leftover": "live_incumbent_stopped_with_SIGSTOP", "incumbent": {"pid": inc.pid, "endpoint": ep},
+        "contenders": procs.len(), "usurpers": usurpers,
+        "lock_before": lock_before.as_ref().map(|b| String::from_utf8_lossy(b).to_string()),
+        "lock_after": lock_after.as_ref().map(|b| String::from_utf8_lossy(b).to_string()),
+        "meta_after": meta_after.as_ref().map(|b| String::from_utf8_lossy(b).to_string()),
+    });
+    if !usurpers.is_empty() {
+        r.violation(
+            "C18/hung_live_incumbent_displaced/multi_process",
+            &format!("{} rip serve process(es) took over a store whose authority is alive but stopped (pid {})", usurpers.len(), inc.pid),
+            witness,
+        );
+    } else if lock_after != lock_before || meta_after != meta_before {
+        r.violation(
+            "C18/hung_live_incumbent_files_changed/multi_process",
+            "lock.json/meta.json of an authority that is alive but stopped were modified by contenders",
+            witness,
+        );
+    } else if !back {
+        r.inconclusive(&format!("case {idx}: incumbent did not answer again after SIGCONT"));
+    } else {
+        r.count("mp_rounds_hung_incumbent_kept_its_lock", 1);
+    }
+    for p in procs.iter_mut() {
+        p.finish();
+    }
+    inc.finish();
+}
+
+fn mp_case(r: &mut Report, cfg: &Cfg, idx: u64, rng: &mut Rng, bin: &Path) {
+    if rng.chance(1, 7) {
+        let with_client = cfg.tier == crate::report::Tier::Thorough && rng.chance(1, 2);
+        mp_stopped_incumbent_case(r, idx, rng, bin, with_client);
+        return;
+    }
+    let store = Store::new("c18mp");
+    let (c1, c2) = (rng.usize(CRASH_RECIPES.len()), rng.usize(CRASH_RECIPES.len()));
+    let left0 = *rng.pick(&[
+        MpLeft::Nothing,
+        MpLeft::DeadLock,
+        MpLeft::DeadLockMeta,
+        MpLeft::DeadLockMeta,
+        MpLeft::EmptyLock,
+        MpLeft::HalfLock,
+        MpLeft::LiveIncumbent,
+        MpLeft::Crash(c1),
+        MpLeft::Crash(c2),
+    ]);
+    let rounds = 1 + rng.usize(cfg.tier.pick(2, 3));
+    let mut procs: Vec<Proc> = Vec::new();
+    let mut groups: Vec<u32> = Vec::new();
+    let mut known: Vec<(String, Option<u32>)> = Vec::new();
+    let mut incumbent: Option<(String, u32)> = None;
+    // plant
+    let mut planted_dead: Option<u32> = None;
+    {
+        let dir = ripd::authority_dir(&store.data);
+        let _ = std::fs::create_dir_all(&dir);
+        let started = 1_700_000_000_000u64 + rng.below(1_000_000);
+        match left0 {
+            MpLeft::Nothing | MpLeft::AfterKill9 => {}
+            MpLeft::Crash(i) => {
+                for (pre, point) in CRASH_RECIPES[i % CRASH_RECIPES.len()].1 {
+                    match *pre {
+                        "dead_lock_meta" => {
+                            let Some(pid) = dead_pid(rng) else {
+                                r.inconclusive("no dead pid available");
+                                return;
+                            };
+                            planted_dead = Some(pid);
+                            let _ = std::fs::write(ripd::authority_lock_path(&store.data), lock_json(pid, started, &store.ws));
+                            let _ = std::fs::write(ripd::authority_meta_path(&store.data), meta_json(REFUSED_ENDPOINT, pid, started, &store.ws));
+                        }
+                        "empty_lock" => {
+                            let _ = std::fs::write(ripd::authority_lock_path(&store.data), b"");
+                        }
+                        _ => {}
+                    }
+                    let mut cmd = serve_cmd(bin, &store.data, &store.ws, "");
+                    cmd.env("RIP_VERIF_ABORT", format!("{point}:1"));
+                    match Proc::spawn(cmd) {
+                        Ok(mut p) => {
+                            let t0 = Instant::now();
+                            while p.alive() && p.listening().is_none() && t0.elapsed() < Duration::from_secs(5) {
+                                std::thread::sleep(Duration::from_millis(3));
+                            }
+                            if p.alive() {
+                                // for points after bind the process announces itself first; give the abort a moment
+                                let _ = p.wait_exit(Duration::from_millis(800));
+                            }
+                            let aborted = !p.alive() && p.stderr_text().contains("rip-verif: abort at");
+                            p.finish();
+                            r.count("mp_crash_points_taken", aborted as u64);
+                            if !aborted {
+                                r.inconclusive(&format!("case {idx}: rip serve did not abort at {point}"));
+                                return;
+                            }
+                        }
+                        Err(e) => {
+                            r.inconclusive(&format!("cannot spawn {}: {e}", bin.display()));
+                            return;
+                        }
+                    }
+                }
+            }
+            MpLeft::DeadLock | MpLeft::DeadLockMeta => {
+                let Some(pid) = dead_pid(rng) else {
+                    r.inconclusive("no dead pid available");
+                    return;
+                };
+                planted_dead = Some(pid);
+                let _ = std::fs::write(ripd::authority_lock_path(&store.data), lock_json(pid, started, &store.ws));
+                if left0 == MpLeft::DeadLockMeta {
+                    let _ = std::fs::write(ripd::authority_meta_path(&store.data), meta_json(REFUSED_ENDPOINT, pid, started, &store.ws));
+                }
+            }
+            MpLeft::EmptyLock => {
+                let _ = std::fs::write(ripd::authority_lock_path(&store.data), b"");
+            }
+            MpLeft::HalfLock => {
+                let full = lock_json(4242, started, &store.ws);
+                let cut = 1 + rng.usize(full.len() - 2);
+                let _ = std::fs::write(ripd::authority_lock_path(&store.data), &full[..cut]);
+            }
+            MpLeft::LiveIncumbent => match Proc::spawn(serve_cmd(bin, &store.data, &store.ws, "")) {
+                Ok(mut p) => {
+                    let t0 = Instant::now();
+                    while p.listening().is_none() && p.alive() && t0.elapsed() < Duration::from_secs(5) {
+                        std::thread::sleep(Duration::from_millis(5));
+                    }
+                    let ep = p.listening();
+                    let pid = p.pid;
+                    procs.push(p);
+                    match ep {
+                        Some(ep) => {
+                            // wait for meta.json
+                            let t0 = Instant::now();
+                            while !ripd::authority_meta_path(&store.data).exists() && t0.elapsed() < Duration::from_secs(2) {
+                                std::thread::sleep(Duration::from_millis(2));
+                            }
+                            known.push((ep.clone(), Some(pid)));
+                            incumbent = Some((ep, pid));
+                        }
+                        None => {
+                            r.inconclusive(&format!("case {idx}: incumbent rip serve did not start"));
+                            for p in procs.iter_mut() {
+                                p.finish();
+                            }
+                            return;
+                        }
+                    }
+                }
+                Err(e) => {
+                    r.inconclusive(&format!("cannot spawn {}: {e}", bin.display()));
+                    return;
+                }
+            },
+        }
+    }
+    let mut left = left0;
+    for round in 0..rounds {
+        let n_serve = match rng.below(3) {
+            0 => 2,
+            1 => 3 + rng.usize(3),
+            _ => 6 + rng.usize(7),
+        };
+        let n_cli = if rng.chance(1, 3) { 1 + rng.usize(3) } else { 0 };
+        let slow_first = left == MpLeft::Nothing && rng.chance(1, 6);
+        let cause_at_start = mp_cause(&store.data, incumbent.is_some(), slow_first);
+        let res = mp_round(bin, &store.data, &store.ws, n_serve, n_cli, slow_first, rng, &mut procs, &mut groups, &mut known);
+        r.eval();
+        r.count("mp_rounds", 1);
+        r.count(&format!("mp_rounds_from_{}", left.name()), 1);
+        r.count("mp_serve_processes", res.n_serve as u64);
+        r.count("mp_cli_clients", res.n_cli as u64);
+        r.count("mp_cli_clients_attached_ok", res.cli_ok as u64);
+        r.count("mp_openapi_probes", (known.len() * 2) as u64);
+        r.distinct_str(&format!(
+            "mp|{}|serve{}|cli{}|serving{}|slow{}",
+            left.name(),
+            res.n_serve.min(8),
+            res.n_cli,
+            res.serving.len(),
+            slow_first
+        ));
+        let witness = json!({
+            "case": idx, "part": "multi_process", "round": round, "leftover": left.name(), "first_leftover": left0.name(),
+            "serve_processes": res.n_serve, "cli_clients": res.n_cli, "slow_first": slow_first,
+            "serving_endpoints": res.serving, "serving_pids": res.serving_pids,
+            "max_direct_children_listening_and_alive": res.max_listening_alive,
+            "lock.json": res.lock_now, "meta.json": res.meta_now,
+            "cli_failed": res.cli_failed, "loser_stderr": res.stderr_tail,
+        });
+        if res.timed_out {
+            r.inconclusive(&format!("case {idx} round {round}: processes neither exited nor announced themselves within the watchdog"));
+            break;
+        }
+        let cause = cause_at_start;
+        let expected_single: Option<&(String, u32)> = incumbent.as_ref();
+        let mut stop = false;
+        if res.serving.len() >= 2 || res.max_listening_alive >= 2 {
+            r.violation(
+                &format!("C18/{cause}/multi_process"),
+                &format!(
+                    "{} rip authorities serve the same store at once (leftover {}, {} rip serve + {} clients started together)",
+                    res.serving.len().max(res.max_listening_alive),
+                    left.name(),
+                    res.n_serve,
+                    res.n_cli
+                ),
+                witness.clone(),
+            );
+            r.count("mp_rounds_with_two_authorities", 1);
+            stop = true;
+        } else if res.serving.is_empty() {
+            let announced_alive = procs.iter_mut().filter(|p| p.listening().is_some()).filter_map(|p| p.alive().then_some(())).count();
+            if announced_alive > 0 {
+                // somebody believes to be the authority but did not answer twice within the probe timeout: load, not a verdict
+                r.inconclusive(&format!("case {idx} round {round}: an announced authority did not answer /openapi.json (overloaded host?)"));
+                stop = true;
+            } else if incumbent.is_some() {
+                r.violation(
+                    "C18/incumbent_displaced/multi_process",
+                    "the live incumbent authority exited while contenders ran recovery",
+                    witness.clone(),
+                );
+                stop = true;
+            } else {
+                // nobody came up inside the loops' own deadlines: wedged for good?
+                match Proc::spawn(serve_cmd(bin, &store.data, &store.ws, "")) {
+                    Ok(mut p) => {
+                        let t0 = Instant::now();
+                        while p.listening().is_none() && p.alive() && t0.elapsed() < Duration::from_secs(6) {
+                            std::thread::sleep(Duration::from_millis(5));
+                        }
+                        let ok = p.listening().is_some() && p.alive();
+                        let tail = p.stderr_text();
+                        if let (true, Some(ep)) = (ok, p.listening()) {
+                            known.push((ep, Some(p.pid)));
+                        }
+                        procs.push(p);
+                        let dead_ok = planted_dead.map(|d| ripd::pid_liveness(d) == ripd::PidLiveness::Dead).unwrap_or(true);
+                        if !ok && dead_ok {
+                            r.violation(
+                                &format!("C18/not_usable_again/{}/multi_process", left.name()),
+                                &format!(
+                                    "no rip serve came up from leftover {} and a later uncontended start failed too: {}",
+                                    left.name(),
+                                    tail.lines().find(|l| l.contains("authority")).or_else(|| tail.lines().last()).unwrap_or("").chars().take(300).collect::<String>()
+                                ),
+                                witness.clone(),
+                            );
+                            stop = true;
+                        } else if !ok {
+                            r.inconclusive("dead pid re-used during the round");
+                            stop = true;
+                        } else {
+                            r.count("mp_progress_only_on_later_start", 1);
+                        }
+                    }
+                    Err(e) => {
+                        r.inconclusive(&format!("cannot spawn {}: {e}", bin.display()));
+                        stop = true;
+                    }
+                }
+            }
+        } else {
+            // exactly one authority serves: the files must name it
+            r.count("mp_rounds_exactly_one_serving", 1);
+            let ep = &res.serving[0];
+            let pid = res.serving_pids[0];
+            if let Some((iep, ipid)) = expected_single {
+                if iep != ep {
+                    r.violation(
+                        "C18/incumbent_displaced/multi_process",
+                        &format!("another authority ({ep}) serves instead of the live incumbent ({iep}, pid {ipid})"),
+                        witness.clone(),
+                    );
+                    stop = true;
+                }
+            }
+            let lock_pid = res.lock_now.as_ref().and_then(|v| v.get("pid")).and_then(|x| x.as_u64());
+            let meta_pid = res.meta_now.as_ref().and_then(|v| v.get("pid")).and_then(|x| x.as_u64());
+            let meta_ep = res.meta_now.as_ref().and_then(|v| v.get("endpoint")).and_then(|x| x.as_str()).map(|s| s.to_string());
+            let pid_ok = match pid {
+                Some(p) => lock_pid == Some(p as u64) && meta_pid == Some(p as u64),
+                None => lock_pid.is_some() && lock_pid == meta_pid,
+            };
+            if !stop && (!pid_ok || meta_ep.as_deref() != Some(ep.as_str())) {
+                r.violation(
+                    &format!("C18/{cause}/multi_process"),
+                    &format!(
+                        "lock.json/meta.json do not name the one serving authority {ep} (pid {pid:?}): lock pid {lock_pid:?}, meta pid {meta_pid:?}, meta endpoint {meta_ep:?} (leftover {})",
+                        left.name()
+                    ),
+                    witness.clone(),
+                );
+                r.count("mp_rounds_files_not_naming_server", 1);
+                stop = true;
+            } else if !stop {
+                r.count("mp_rounds_files_name_the_server", 1);
+            }
+        }
+        if r.samples.len() < r.max_samples && round == 0 {
+            r.sample(witness);
+        }
+        if stop {
+            break;
+        }
+        // crash every serving authority and go again on what it leaves behind
+        let mut killed = 0;
+        for p in procs.iter_mut() {
+            if p.alive() && p.listening().is_some() {
+                kill_pid(p.pid, libc::SIGKILL);
+                let _ = p.wait_exit(Duration::from_secs(2));
+                killed += 1;
+            }
+        }
+        if killed == 0 {
+            // the server is a client-spawned grandchild: meta.json has its pid
+            if let Some(p) = res.meta_now.as_ref().and_then(|v| v.get("pid")).and_then(|x| x.as_u64()) {
+                kill_pid(p as u32, libc::SIGKILL);
+                let t0 = Instant::now();
+                while ripd::pid_liveness(p as u32) == ripd::PidLiveness::Alive && t0.elapsed() < Duration::from_secs(6) {
+                    // an orphan is a zombie until init reaps it (takes up to ~2 s here); a zombie counts as alive for kill(0)
+                    std::thread::sleep(Duration::from_millis(10));
+                }
+                if ripd::pid_liveness(p as u32) == ripd::PidLiveness::Alive {
+                    r.count("mp_orphan_winner_not_reaped_round_sequence_cut", 1);
+                    break;
+                }
+            }
+        }
+        r.count("mp_winners_sigkilled", 1);
+        incumbent = None;
+        planted_dead = None;
+        left = MpLeft::AfterKill9;
+    }
+    for g in &groups {
+        kill_group(*g, libc::SIGKILL);
+    }
+    for p in procs.iter_mut() {
+        p.finish();
+    }
+    // authorities spawned by clients that are still around (they are in the clients' groups; belt and braces)
+    if let Some(p) = std::fs::read(ripd::authority_meta_path(&store.data))
+        .ok()
+        .and_then(|b| serde_json::from_slice::<Value>(&b).ok())
+        .and_then(|v| v.get("pid").and_then(|x| x.as_u64()))
+    {
+        let lock_ws = std::fs::read(ripd::authority_lock_path(&store.data))
+            .ok()
+            .and_then(|b| serde_json::from_slice::<Value>(&b).ok())
+            .and_then(|v| v.get("workspace_root").and_then(|x| x.as_str()).map(|s| s.to_string()));
+        if lock_ws.as_deref() == Some(store.ws.to_string_lossy().as_ref()) && !procs.iter().any(|q| q.pid == p as u32) {
+            if let Ok(cmdline) = std::fs::read(format!("/proc/{p}/cmdline")) {
+                if String::from_utf8_lossy(&cmdline).contains("serve") {
+                    kill_pid(p as u32, libc::SIGKILL);
+                }
+            }
+        }
+    }
+}
+
+// ---------------------------------------------------------------------------------------------
 
 pub fn run(cfg: &Cfg) -> i32 {
-    let mut r = Report::new("C18", "exploration", "not built");
-    r.fatal_inconclusive("monitor not built yet");
+    let mut r = Report::new(
+        "C18",
+        "fault_enumeration",
+        "(A) in-process: every leftover state {nothing, dead lock, dead lock+meta (± started_at drift), dead meta only, empty / \
+         half-written / shapeless / split-UTF-8 lock, empty lock + dead meta, live pid lock (± meta), answering endpoint (live / \
+         non-local pid)} × {directed rendezvous schedules at each read-then-rename pair, seeded noise at all auth.* points} with \
+         1–6 contender threads running the real recovery loop; (B) multi-process: 2–12 real `rip serve` (+0–3 `rip tasks list` \
+         clients) started at once per leftover state with random RIP_VERIF_DELAY, winner SIGKILLed, round repeated. A case is \
+         non-trivial when ≥2 contenders reached auth.* hook points (A) / the round was judged (B); distinct = distinct \
+         (state, schedule, hook interleaving) resp. (state, #processes, #serving) shapes",
+    );
+    r.assume("hook points do not change behaviour beyond timing");
+    r.assume("in-process contenders share one pid: a contender's lock can never look dead to another contender; dead-pid cleanup is triggered by planted leftovers only");
+    r.assume("schedules are the directed rendezvous scripts plus what the OS scheduler and injected delays produce (not exhaustive)");
+    r.assume("bounded progress is judged as: somebody acquired before all loops returned, or (to rule out timing) one later uncontended attempt succeeds");
+    let bin = rip_bin();
+    let have_bin = bin.exists();
+    if !have_bin {
+        r.inconclusive(&format!(
+            "real binary {} not found (RV_RIP_BIN): multi-process part (B) skipped",
+            bin.display()
+        ));
+    }
+    r.note("rip_binary", json!(bin.display().to_string()));
+
+    if let Some(path) = &cfg.replay {
+        // re-run the stored case (directed schedules replay deterministically; noise cases re-run the same seed)
+        let doc: Value = std::fs::read(path).ok().and_then(|b| serde_json::from_slice(&b).ok()).unwrap_or(Value::Null);
+        let idx = doc.pointer("/witness/case").and_then(|x| x.as_u64()).unwrap_or(0);
+        let part = doc.pointer("/witness/part").and_then(|x| x.as_str()).unwrap_or("in_process").to_string();
+        let mut rng = cfg.case_rng(idx);
+        if part == "multi_process" {
+            if have_bin {
+                mp_case(&mut r, cfg, idx, &mut rng, &bin);
+            }
+        } else {
+            let case = if idx < N_DIRECTED { directed_case(idx) } else { noise_case(&mut rng, cfg) };
+            let out = run_inproc_case(&case, &mut rng);
+            judge_inproc(&mut r, idx, &case, &out);
+        }
+        return r.finish(cfg);
+    }
+
+    let max_cases = cfg.tier.pick(4_000u64, 2_000_000u64);
+    let mp_every = cfg.tier.pick(9u64, 7u64);
+    let mut idx = 0u64;
+    while idx < max_cases && (r.elapsed() < cfg.budget_s * 0.9 || idx < N_DIRECTED) {
+        let i = idx;
+        idx += 1;
+        if !cfg.mine(i) {
+            continue;
+        }
+        let mut rng = cfg.case_rng(i);
+        if i < N_DIRECTED {
+            let case = directed_case(i);
+            let out = run_inproc_case(&case, &mut rng);
+            judge_inproc(&mut r, i, &case, &out);
+            r.count("directed_schedules_run", 1);
+        } else if have_bin && (i - N_DIRECTED) % mp_every == mp_every - 1 {
+            mp_case(&mut r, cfg, i, &mut rng, &bin);
+        } else {
+            let case = noise_case(&mut rng, cfg);
+            let out = run_inproc_case(&case, &mut rng);
+            judge_inproc(&mut r, i, &case, &out);
+        }
+    }
     r.finish(cfg)
 }
